@@ -17,7 +17,7 @@ func randomConfig(r *hc.RNG) Config {
 	cfg := Config{Max: int64(hc.Pick(r, 1, 1, 1, 2, 2, 3, 0)), Callers: hc.Pick(r, 1, 2, 2, 3, 3, 4, 5), MaxSteps: 120}
 	cfg.W = Weights{Step: 8, Ready: hc.Pick(r, 2, 6, 10), Die: hc.Pick(r, 0, 1, 2, 4), Cancel: hc.Pick(r, 0, 1, 2, 4),
 		FinOK: hc.Pick(r, 2, 6), FinErr: hc.Pick(r, 0, 1, 2), FinRetry: hc.Pick(r, 0, 1, 2)}
-	cfg.B = Budget{Cancel: hc.Pick(r, 0, 1, 2, 5), Die: hc.Pick(r, 0, 1, 2, 4), Retry: hc.Pick(r, 0, 1, 2)}
+	cfg.B = Budget{Cancel: hc.Pick(r, 0, 1, 2, 5), Die: hc.Pick(r, 0, 1, 2, 4), Retry: hc.Pick(r, 0, 1, 2), Close: hc.Pick(r, 0, 0, 0, 1)}
 	return cfg
 }
 
@@ -71,7 +71,8 @@ func Main(c *hc.Ctx, prop string) error {
 		if c.Thorough() {
 			tinies = append(tinies,
 				tiny{Config{Max: 1, Callers: 2, W: w, B: Budget{Cancel: 2, Die: 1, Retry: 1}, MaxSteps: 200}, 400000},
-				tiny{Config{Max: 2, Callers: 3, W: w, B: Budget{Cancel: 1, Die: 1, Retry: 0}, MaxSteps: 200}, 250000})
+				tiny{Config{Max: 2, Callers: 3, W: w, B: Budget{Cancel: 1, Die: 1, Retry: 0}, MaxSteps: 200}, 250000},
+				tiny{Config{Max: 1, Callers: 2, W: w, B: Budget{Cancel: 1, Die: 0, Retry: 0, Close: 1}, MaxSteps: 200}, 250000})
 		}
 		res := make([][]Outcome, len(tinies))
 		exh := make([]bool, len(tinies))
@@ -160,9 +161,11 @@ func Explore(cfg Config, expectBg bool, maxRuns int) (outs []Outcome, exhausted 
 				b.Die--
 			case strings.HasSuffix(t, ":retry"):
 				b.Retry--
+			case strings.HasPrefix(t, "cl:"):
+				b.Close--
 			}
 		}
-		key := fmt.Sprintf("%s|%s|%d/%d/%d", lastSum, strings.Join(names, ","), b.Cancel, b.Die, b.Retry)
+		key := fmt.Sprintf("%s|%s|%d/%d/%d/%d", lastSum, strings.Join(names, ","), b.Cancel, b.Die, b.Retry, b.Close)
 		if seen[key] {
 			continue
 		}
@@ -175,7 +178,7 @@ func Explore(cfg Config, expectBg bool, maxRuns int) (outs []Outcome, exhausted 
 }
 
 func parseInput(s string) (Config, []string, error) {
-	cfg := Config{MaxSteps: 400, B: Budget{Cancel: 99, Die: 99, Retry: 99}, W: Weights{1, 1, 1, 1, 1, 1, 1}}
+	cfg := Config{MaxSteps: 400, B: Budget{Cancel: 99, Die: 99, Retry: 99, Close: 1}, W: Weights{1, 1, 1, 1, 1, 1, 1}}
 	var script []string
 	for _, w := range strings.Fields(s) {
 		switch {
